@@ -3619,6 +3619,7 @@ void SGXMLScanner::resolveSchemaGrammar(const XMLCh* const loc, const XMLCh* con
         parser.setUserEntityHandler(fEntityHandler);
         parser.setUserErrorReporter(fErrorReporter);
         parser.setDisableDefaultEntityResolution(fDisableDefaultEntityResolution);
+        parser.setSecurityManager(fSecurityManager);
 
         //Normalize sysId
         XMLBufBid nnSys(&fBufMgr);
@@ -3949,6 +3950,7 @@ Grammar* SGXMLScanner::loadXMLSchemaGrammar(const InputSource& src,
     parser.setUserEntityHandler(fEntityHandler);
     parser.setUserErrorReporter(fErrorReporter);
     parser.setDisableDefaultEntityResolution(fDisableDefaultEntityResolution);
+    parser.setSecurityManager(fSecurityManager);
 
     // Should just issue warning if the schema is not found
     bool flag = src.getIssueFatalErrorIfNotFound();
